@@ -274,24 +274,36 @@ pub fn pairs_str(l: &[(u64, u32)]) -> String {
     }
 }
 
-/// One invocation of `on_evict`, exactly as PROTOCOL.md describes it
-fn run_round(st: &Script, guards: Vec<GuardBox>, recount: &dyn Fn() -> (usize, Vec<u32>)) -> Result<(), ()> {
-    let (round, ids, sorted, block_key) = {
-        let mut s = st.borrow_mut();
-        s.invocations += 1;
-        let round = s.rounds.pop_front().unwrap_or_default();
-        let ids: Vec<(u64, u32)> = guards
-            .iter()
-            .enumerate()
-            .map(|(i, g)| (s.next_h + i as u64, g.key()))
-            .collect();
-        s.next_h += guards.len() as u64;
-        (round, ids, s.sorted, s.block_key)
-    };
+/// start of one invocation of `on_evict`: take the next round of the script, name the guards
+fn begin_round(st: &Script, guards: &[GuardBox]) -> (Round, Vec<(u64, u32)>, bool, Option<u32>) {
+    let mut s = st.borrow_mut();
+    s.invocations += 1;
+    let round = s.rounds.pop_front().unwrap_or_default();
+    let ids: Vec<(u64, u32)> = guards
+        .iter()
+        .enumerate()
+        .map(|(i, g)| (s.next_h + i as u64, g.key()))
+        .collect();
+    s.next_h += guards.len() as u64;
+    let (sorted, block_key) = (s.sorted, s.block_key);
+    drop(s);
     if st.borrow().sched {
         // before the guards are touched: dropping them passes hook points, i.e. ends the segment
         crate::sched::push_event(format!("ev={}", pairs_str(&ids)));
     }
+    (round, ids, sorted, block_key)
+}
+
+/// the work of one invocation of `on_evict`, exactly as PROTOCOL.md describes it
+fn finish_round(
+    st: &Script,
+    round: Round,
+    ids: Vec<(u64, u32)>,
+    sorted: bool,
+    block_key: Option<u32>,
+    guards: Vec<GuardBox>,
+    recount: &dyn Fn() -> (usize, Vec<u32>),
+) -> Result<(), ()> {
     if round.fin == Fin::Panic {
         st.borrow_mut().traces.push(format!("ev({})", pairs_str(&ids)));
         // `guards` is still alive here: unwinding drops it
@@ -354,8 +366,62 @@ fn run_round(st: &Script, guards: Vec<GuardBox>, recount: &dyn Fn() -> (usize, V
     };
     st.borrow_mut().traces.push(trace);
     match round.fin {
-        Fin::Err => Err(()),
+        Fin::Err | Fin::PendErr => Err(()),
         _ => Ok(()),
+    }
+}
+
+/// One invocation of a synchronous `on_evict`
+fn run_round(st: &Script, guards: Vec<GuardBox>, recount: &dyn Fn() -> (usize, Vec<u32>)) -> Result<(), ()> {
+    let (round, ids, sorted, block_key) = begin_round(st, &guards);
+    finish_round(st, round, ids, sorted, block_key, guards, recount)
+}
+
+/// The future an asynchronous `on_evict` returns. For a `pend` round it owns the guards, is pending when it is first polled
+/// and does the work of the round when it is polled again; dropping it before that releases the guards untouched.
+pub struct EvictFut {
+    ready: Option<Result<(), ()>>,
+    pending: Option<PendingRound>,
+}
+
+struct PendingRound {
+    st: Script,
+    round: Round,
+    ids: Vec<(u64, u32)>,
+    sorted: bool,
+    block_key: Option<u32>,
+    guards: Vec<GuardBox>,
+    recount: Box<dyn Fn() -> (usize, Vec<u32>)>,
+    polled: bool,
+}
+
+impl std::future::Future for EvictFut {
+    type Output = Result<(), ()>;
+    fn poll(self: std::pin::Pin<&mut Self>, _cx: &mut std::task::Context<'_>) -> std::task::Poll<Self::Output> {
+        let this = self.get_mut();
+        if let Some(r) = this.ready.take() {
+            return std::task::Poll::Ready(r);
+        }
+        let p = this.pending.as_mut().expect("EvictFut polled after completion");
+        if !p.polled {
+            p.polled = true;
+            p.st.borrow_mut().traces.push(format!("susp({})", pairs_str(&p.ids)));
+            return std::task::Poll::Pending;
+        }
+        let p = this.pending.take().expect("checked above");
+        std::task::Poll::Ready(finish_round(&p.st, p.round, p.ids, p.sorted, p.block_key, p.guards, &*p.recount))
+    }
+}
+
+fn evict_future(st: &Script, guards: Vec<GuardBox>, recount: Box<dyn Fn() -> (usize, Vec<u32>)>) -> EvictFut {
+    let (round, ids, sorted, block_key) = begin_round(st, &guards);
+    if matches!(round.fin, Fin::PendOk | Fin::PendErr) {
+        EvictFut {
+            ready: None,
+            pending: Some(PendingRound { st: Rc::clone(st), round, ids, sorted, block_key, guards, recount, polled: false }),
+        }
+    } else {
+        EvictFut { ready: Some(finish_round(st, round, ids, sorted, block_key, guards, &*recount)), pending: None }
     }
 }
 
@@ -452,9 +518,11 @@ macro_rules! async_call {
                         AsyncLimit::SoftLimit {
                             max_entries: n,
                             on_evict: move |gs: Vec<$G>| {
-                                std::future::ready(run_round(&st, boxed(gs, $W), &|| {
-                                    (c.num_entries_or_locked(), c.keys_with_entries_or_locked())
-                                }))
+                                evict_future(
+                                    &st,
+                                    boxed(gs, $W),
+                                    Box::new(move || (c.num_entries_or_locked(), c.keys_with_entries_or_locked())),
+                                )
                             },
                         },
                     )
